@@ -42,6 +42,21 @@ def patched(rng, d):
         k = rng.below(n)
         j = rng.below(n)
         struct.pack_into('<Q', d, recs[k][0] + 16, recs[j][3] if rng.chance(2, 3) else recs[j][3] + rng.pick([-10, 10, 10_000_000]))
+    # record ids in the record HEADERS (the XML keeps the original EventRecordID, which is what the oracle reads back):
+    # among records of equal time make the header ids descend, repeat, or jump, so that nothing but the position in the
+    # file can be the tie-break ("dirty" files with stale chunk copies really carry repeated ids)
+    recs = records(d)
+    by_ts = {}
+    for i, r in enumerate(recs):
+        by_ts.setdefault(r[3], []).append(i)
+    for ts, idx in by_ts.items():
+        if len(idx) < 2 or rng.chance(1, 3):
+            continue
+        mode = rng.below(3)
+        ids = [recs[i][2] for i in idx]
+        new = list(reversed(ids)) if mode == 0 else ([ids[0]] * len(ids) if mode == 1 else [rng.below(1 << 40) for _ in ids])
+        for i, v in zip(idx, new):
+            struct.pack_into('<Q', d, recs[i][0] + 8, v)
     return bytes(d)
 
 
@@ -67,6 +82,13 @@ def oracle_and_corr(ctx):
     failures, samples, reqs, impl = [], [], [], []
     ev = 0
     kinds = ['plain', 'gz', 'xz', 'bz2', 'lz4', 'tar']
+    base_path = os.path.join(ctx.work, 'c10_base.evtx')
+    open(base_path, 'wb').write(base)
+    # printed <EventRecordID> (from the XML, never patched) -> position in the file
+    xml_rid_to_idx = {}
+    for i, (rid, ts) in enumerate(dump(base_path)):
+        xml_rid_to_idx.setdefault(rid, i)
+    os.unlink(base_path)
     for k in range(nfiles):
         data = base if k == 0 else patched(rng, base)
         kind = kinds[k % len(kinds)]
@@ -77,9 +99,7 @@ def oracle_and_corr(ctx):
         if kind != 'plain':
             path = plain + e2e.SUFFIX[kind]
             e2e.pack(data, kind, path, inner_name='c10_%d.evtx' % k)
-        rid_to_idx = {}
-        for i, (rid, ts) in enumerate(recs):
-            rid_to_idx.setdefault(rid, i)
+        rid_to_idx = xml_rid_to_idx
         tss = [ts for _, ts in recs]
         for w in range(ctx.q(3, 6)):
             a = b = None
@@ -120,7 +140,7 @@ def oracle_and_corr(ctx):
             if os.path.exists(p):
                 os.unlink(p)
     orc = {'evaluations': ev, 'distinct_nontrivial': len(set(reqs)), 'failures': failures, 'samples': samples,
-           'rule': f'{nfiles} event-log files (the shipped sample, out of order at record 204, and copies with patched header timestamps giving ties and more disorder; '
+           'rule': f'{nfiles} event-log files (the shipped sample, out of order at record 204, and copies with patched header timestamps giving ties and more disorder, and header record ids descending / repeated / random among tied records; '
                    'plain and each container) x windows on/next to record times; printed EventRecordIDs must be the stable sort by creation time of the in-window records '
                    'of an independent evtx-crate dump; distinct = distinct (window, timestamps) inputs'}
     corr = model_compare(ctx, 'sort-evtx', reqs, impl)
